@@ -437,6 +437,9 @@ func runC16(c *Ctx) {
 		newDeploy("ec", "https://ec.example.com/app/", "ec_256", "", nil),
 		newDeploy("http-custom", "http://sp.example.com/", "rsa_a", "sess", &d90),
 		newDeploy("noslash-subsec", "https://sp.example.com", "rsa_a", "", &d1500),
+		// tenants of one host sharing the key, URLs differing in letter case only
+		newDeploy("tenant-lower", "https://apps.example.com/t/acme/", "rsa_a", "", nil),
+		newDeploy("tenant-mixed", "https://apps.example.com/t/Acme/", "rsa_a", "", nil),
 	}
 	byName := map[string]*deploy{}
 	for _, d := range deps {
@@ -706,7 +709,8 @@ func runC16(c *Ctx) {
 			if other == h.d {
 				continue
 			}
-			if hi%4 != 0 && !c.Thorough() {
+			nearMiss := other.key == h.d.key && (strings.EqualFold(other.url, h.d.url) || strings.TrimSuffix(other.url, "/") == strings.TrimSuffix(h.d.url, "/"))
+			if hi%4 != 0 && !c.Thorough() && !nearMiss {
 				continue
 			}
 			addDec(other, true, h.t0+nsPerS, &h.w, other.sessionCookie(), "t0+1s")
@@ -773,9 +777,57 @@ func runC16(c *Ctx) {
 		{"iss-prefix", same, func(u string) string { return strings.TrimSuffix(u, "/") + "" }},
 		{"aud-iss-swapped-deployment", func(u string) string { return "https://apps.example.com/wiki/" }, func(u string) string { return "https://apps.example.com/payroll/" }},
 	}
+	// the near-miss lattice of audience / issuer: letter case (whole, host only, one letter), trailing slash,
+	// padding, prefix, extension, percent-encoding, Unicode simple case folding (U+017F, U+212A)
+	nearMisses := []struct {
+		label string
+		f     func(u string) string
+	}{
+		{"upper", strings.ToUpper},
+		{"host-upper", func(u string) string {
+			i := strings.Index(u, "://")
+			j := strings.Index(u[i+3:], "/")
+			if j < 0 {
+				return u[:i+3] + strings.ToUpper(u[i+3:])
+			}
+			return u[:i+3] + strings.ToUpper(u[i+3:i+3+j]) + u[i+3+j:]
+		}},
+		{"one-letter-case", func(u string) string {
+			for i := len(u) - 1; i >= 0; i-- {
+				if u[i] >= 'a' && u[i] <= 'z' {
+					return u[:i] + strings.ToUpper(u[i:i+1]) + u[i+1:]
+				}
+			}
+			return u
+		}},
+		{"slash-toggled", func(u string) string {
+			if strings.HasSuffix(u, "/") {
+				return strings.TrimSuffix(u, "/")
+			}
+			return u + "/"
+		}},
+		{"padded-right", func(u string) string { return u + " " }},
+		{"padded-left", func(u string) string { return " " + u }},
+		{"prefix", func(u string) string { return u[:len(u)-2] }},
+		{"extension", func(u string) string { return u + "index" }},
+		{"percent-encoded", func(u string) string { return strings.Replace(u, ".", "%2E", 1) }},
+		{"long-s", func(u string) string { return strings.Replace(u, "s", "\u017f", 1) }},
+		{"kelvin", func(u string) string { return strings.Replace(strings.Replace(u, "k", "\u212a", 1), "K", "\u212a", 1) }},
+	}
+	for ni, nm := range nearMisses {
+		nm := nm
+		idVars = append(idVars, idVar{"near-" + nm.label + "-both", nm.f, nm.f})
+		if ni%2 == 0 || c.Thorough() {
+			idVars = append(idVars, idVar{"near-" + nm.label + "-aud", nm.f, same})
+		}
+		if ni%2 == 1 || c.Thorough() {
+			idVars = append(idVars, idVar{"near-" + nm.label + "-iss", same, nm.f})
+		}
+	}
 	for di, d := range deps {
 		for vi, v := range idVars {
-			if (di+vi)%2 != 0 && !c.Thorough() {
+			near := strings.HasPrefix(v.label, "near-")
+			if (di+vi)%2 != 0 && !c.Thorough() && !(near && strings.HasSuffix(v.label, "-both")) {
 				continue
 			}
 			a := asserts[(di+vi)%len(fixedAssertions())]
@@ -807,6 +859,9 @@ func runC16(c *Ctx) {
 			tcodec.Audience, tcodec.Issuer = aud, iss
 			trq := samlsp.TrackedRequest{Index: "ix-" + v.label, SAMLRequestID: "id-" + v.label, URI: "/x"}
 			for _, arr := range []bool{true, false} {
+				if near && !c.Thorough() && (arr != ((di+vi)%2 == 0)) {
+					continue
+				}
 				setClock(t0)
 				old := jwt.MarshalSingleStringAsArray
 				jwt.MarshalSingleStringAsArray = arr
